@@ -136,7 +136,7 @@ func run(cfg RunConfig, pkgPaths []string) (*RunOutput, error) {
 		}
 		for _, n := range names {
 			con := cs.Funcs[n]
-			if con.Assumed || con.Pkg != pkgName || !strings.HasSuffix(con.File, "zz_contracts_verif.go") {
+			if con.Assumed || con.Pkg != pkgName || !isContractFile(filepath.Base(con.File)) {
 				continue
 			}
 			if filepath.Dir(con.File) != filepath.Join(cfg.Repo, strings.TrimPrefix(strings.TrimPrefix(pp, modPath), "/")) {
@@ -293,7 +293,7 @@ func cmdVC(args []string) int {
 	fail := 0
 	for _, r := range out.Results {
 		if r.Res.Status != "unsat" || cfg.Verbose {
-			fmt.Printf("%-8s %-6s %5.2fs  %s   [%s]\n", r.Res.Status, r.Res.Solver, r.Res.Seconds, r.Obl.Name, r.Obl.Where)
+			fmt.Printf("%-8s %-6s %5.2fs  %s   [%s] @%s\n", r.Res.Status, r.Res.Solver, r.Res.Seconds, r.Obl.Name, r.Obl.Where, r.Obl.Code)
 		}
 		if r.Res.Status != "unsat" {
 			fail++
